@@ -44,6 +44,7 @@ func Profile(name string) Knobs {
 		k.PFail, k.MaxFails = 0.12, 2
 		k.PDefer, k.PDeferCall = 0.1, 0.05
 		k.PDepLoop = 0.15
+		k.Includes = true
 		return k
 	case "seq": // C02
 		k := base
@@ -507,7 +508,35 @@ func skeleton(rng *rand.Rand, profile string) *Prog {
 	if (profile == "fail" || profile == "dedup") && rng.Intn(4) == 0 {
 		which = 5
 	}
+	if (profile == "deps" || profile == "dedup") && rng.Intn(6) == 0 {
+		which = 6
+	}
 	switch which {
+	case 6: // two run-once tasks of an included file whose names end alike after a ':'; each is needed by another task
+		mk(5)
+		p.Tasks[3].Name, p.Tasks[4].Name = "ga:w", "gb:w"
+		for _, j := range []int{3, 4} {
+			p.Tasks[j].Run, p.Tasks[j].File = Once, 1
+			p.Tasks[j].Entries = probes(1 + rng.Intn(2))
+		}
+		for k, j := range []int{1, 2} {
+			if viaCall && k == 1 {
+				p.Tasks[j].Entries = append([]*Entry{{Kind: Call, Ref: ref(3 + k)}}, probes(1)...)
+			} else {
+				p.Tasks[j].Deps = []*Ref{ref(3 + k)}
+				p.Tasks[j].Entries = probes(1)
+			}
+		}
+		if rng.Intn(2) == 0 {
+			p.Tasks[0].Deps = []*Ref{ref(1), ref(2)}
+		} else {
+			p.Tasks[0].Entries = []*Entry{{Kind: Call, Ref: ref(1)}, {Kind: Call, Ref: ref(2)}}
+		}
+		p.Tasks[0].Entries = append(p.Tasks[0].Entries, probes(1)...)
+		p.Roots = []*Ref{ref(0)}
+		p.Conc = []int{0, 0, 1, 2}[rng.Intn(4)]
+		p.Yes = true
+		return p
 	case 5: // a failing shared task whose failure k callers tolerate (task-level ignore_error) before one that must fail
 		k := 2 + rng.Intn(3)
 		mk(k + 3)
